@@ -74,7 +74,7 @@ class Interp:
     STEP_LIMIT = 3_000_000
 
     def __init__(s, mod, dom, decisions=None, pc=None, stats=None):
-        s.mod = mod; s.dom = dom; s.solver = z3.Solver(); s.pc = []; s.decisions = list(decisions or []); s.taken = []
+        s.mod = mod; s.dom = dom; s.solver = z3.Solver(); s.solver.set('timeout', 20000); s.pc = []; s.decisions = list(decisions or []); s.taken = []
         s.st = stats or Stats(); s.viol = []; s.regions = []; s.globals = {}; s.rcnt = 0; s.bases = {}
         s.notes = []; s.val_cache = {}; s.fma_fused = '+fma' in mod.target_features
         s.heap_calls = []; s.depth = 0; s.name_ite = False; s.pc_gen = 0; s.uf_int = False
